@@ -3,6 +3,7 @@
 package hook
 
 import (
+	"net"
 	"net/netip"
 	"time"
 
@@ -181,4 +182,44 @@ func (c ClientCfg) Lookup(serial uint32) *DeviceCfg {
 		}
 	}
 	return dev
+}
+
+// Paused wraps the library's own UDP/TCP driver so that every driver call returns to the library only after `pause(method)`
+// has run (it may sleep, yield or do nothing): the moment between "the driver has the replies" and "the library decodes them"
+// is stretched, which is where a buffer that was recycled too early is handed to somebody else. Everything else - sockets,
+// deadlines, the read loops - is the real driver's.
+type paused struct {
+	inner uhppote.Driver
+	pause func(method string)
+}
+
+func (p paused) Broadcast(a *net.UDPAddr, r []byte) ([][]byte, error) {
+	out, err := p.inner.Broadcast(a, r)
+	p.pause("Broadcast")
+	return out, err
+}
+func (p paused) BroadcastTo(a *net.UDPAddr, r []byte, cb func([]byte) bool) ([]byte, error) {
+	out, err := p.inner.BroadcastTo(a, r, cb)
+	p.pause("BroadcastTo")
+	return out, err
+}
+func (p paused) SendUDP(a *net.UDPAddr, r []byte) ([]byte, error) {
+	out, err := p.inner.SendUDP(a, r)
+	p.pause("SendUDP")
+	return out, err
+}
+func (p paused) SendTCP(a *net.TCPAddr, r []byte) ([]byte, error) {
+	out, err := p.inner.SendTCP(a, r)
+	p.pause("SendTCP")
+	return out, err
+}
+func (p paused) Listen(s chan any, d chan any, cb func([]byte)) error {
+	return p.inner.Listen(s, d, cb)
+}
+
+// RealPaused builds a client on the library's own driver with a pause hook between the driver and the library.
+func RealPaused(c ClientCfg, pause func(method string)) uhppote.IUHPPOTE {
+	ev.MuteLibraryStdout()
+	bind, bcast, listen, timeout := c.addrs()
+	return uhppote.NewUHPPOTEWithDriver(bind, bcast, listen, timeout, c.Devices_(), c.Debug, func(inner uhppote.Driver) uhppote.Driver { return paused{inner, pause} })
 }
